@@ -41,37 +41,60 @@ theorem fragHyp_noFrag (S : Schema) (ft : List (Name × Name)) (env : List Decl)
 section
 variable {S : Schema} {ft : List (Name × Name)} {env : List Decl}
 
+/-- The identifier declared for a definition is among the declarations. -/
+def TypedefIn (decls : List Decl) : Def → Prop
+  | .op _ none _ => True
+  | .op _ (some name) _ => (name ++ n_Data) ∈ decls.map Decl.name
+  | .frag name _ _ => (name ++ n_Fragment) ∈ decls.map Decl.name
+
 /-- `generateType` for a definition's root. -/
 theorem genNamed_good (hS : schemaOK S = true) (henv : EnvOK env) {n : Name} {td : TypeDef} {sels : List Sel}
     {st st' : St} {ty : GoTy}
     (hlk : S.lookup n = some td) (hcomp : isComposite td = true) (hok : setOK S ft td sels = true)
     (hgen : genNamed S ft n sels true st = .ok (ty, st')) (hinv : EnumInv st) :
     (∀ d ∈ st.decls, d ∈ st'.decls) ∧ EnumInv st' ∧
-    ((∀ d ∈ st'.decls, d ∈ env) → ∀ frag, FragHyp S ft env frag → LevelGood S env frag td sels ty) := by
+    (∀ tds, NamesHyp S tds → NameInv S tds st → NameInv S tds st') ∧
+    ((∀ d ∈ st'.decls, d ∈ env) →
+      (∀ frag, FragHyp S ft env frag → LevelGood S env frag td sels ty) ∧
+      (FragNames ft (env.map Decl.name) → enumConstsOK S = true →
+        tyOK (env.map Decl.name) ty = true ∧ (StOK (env.map Decl.name) st → StOK (env.map Decl.name) st'))) := by
   unfold genNamed at hgen
-  obtain ⟨hmono, hinv', _⟩ := level_statement hS henv (fragHyp_noFrag S ft env) (sizeOf sels) sels (Nat.le_refl _)
+  obtain ⟨hmono, hinv', hnm, hsem0⟩ := level_statement hS henv (fragHyp_noFrag S ft env) (sizeOf sels) sels (Nat.le_refl _)
     n td true st ty st' hlk hcomp hgen hok hinv
-  refine ⟨hmono, hinv', ?_⟩
-  intro henv' frag hfrag
-  obtain ⟨_, _, hsem⟩ := level_statement hS henv hfrag (sizeOf sels) sels (Nat.le_refl _)
+  refine ⟨hmono, hinv', hnm, ?_⟩
+  intro henv'
+  refine ⟨?_, (hsem0 henv').2⟩
+  intro frag hfrag
+  obtain ⟨_, _, _, hsem⟩ := level_statement hS henv hfrag (sizeOf sels) sels (Nat.le_refl _)
     n td true st ty st' hlk hcomp hgen hok hinv
-  obtain ⟨tyB, hty, hgood⟩ := hsem henv'
+  obtain ⟨⟨tyB, hty, hgood⟩, _⟩ := hsem henv'
   simp only [ptrUnless, if_true] at hty
   rw [hty]
   exact hgood
+
+theorem stOK_append {names : List Name} {st : St} {d : Decl} (h : StOK names st) (hd : declOK names d = true) :
+    StOK names { st with decls := st.decls ++ [d] } := by
+  intro d' hd'
+  simp only [List.mem_append, List.mem_singleton] at hd'
+  rcases hd' with hd' | rfl
+  · exact h d' hd'
+  · exact hd
 
 theorem processDefs_good (hS : schemaOK S = true) (henv : EnvOK env) :
     ∀ (defs : List Def) (st : St), (∀ df ∈ defs, defOK S ft df = true) →
       (processDefs S ft defs st).1 = [] → EnumInv st →
       (∀ d ∈ st.decls, d ∈ (processDefs S ft defs st).2.decls) ∧ EnumInv (processDefs S ft defs st).2 ∧
+      (∀ df ∈ defs, TypedefIn (processDefs S ft defs st).2.decls df) ∧
       ((∀ d ∈ (processDefs S ft defs st).2.decls, d ∈ env) →
-        ∀ frag, FragHyp S ft env frag → ∀ df ∈ defs, DefGood S env frag df) := by
+        (∀ frag, FragHyp S ft env frag → ∀ df ∈ defs, DefGood S env frag df) ∧
+        (FragNames ft (env.map Decl.name) → enumConstsOK S = true →
+          StOK (env.map Decl.name) st → StOK (env.map Decl.name) (processDefs S ft defs st).2)) := by
   intro defs
   induction defs with
   | nil =>
     intro st _ _ hinv
     simp only [processDefs]
-    exact ⟨fun d hd => hd, hinv, fun _ _ _ df hdf => by cases hdf⟩
+    exact ⟨fun d hd => hd, hinv, fun df hdf => (nomatch hdf), fun _ => ⟨fun _ _ df hdf => (nomatch hdf), fun _ _ h => h⟩⟩
   | cons df rest ih =>
     intro st hok herr hinv
     have hokd := hok df List.mem_cons_self
@@ -81,12 +104,19 @@ theorem processDefs_good (hS : schemaOK S = true) (henv : EnvOK env) :
       cases name with
       | none =>
         simp only [processDefs] at herr ⊢
-        obtain ⟨h1, h2, h3⟩ := ih st hokr herr hinv
-        refine ⟨h1, h2, ?_⟩
-        intro henv' frag hfrag d hd
-        rcases List.mem_cons.mp hd with rfl | hd
-        · trivial
-        · exact h3 henv' frag hfrag d hd
+        obtain ⟨h1, h2, ht, h3⟩ := ih st hokr herr hinv
+        refine ⟨h1, h2, ?_, ?_⟩
+        · intro d hd
+          rcases List.mem_cons.mp hd with rfl | hd
+          · trivial
+          · exact ht d hd
+        · intro henv'
+          obtain ⟨g1, g2⟩ := h3 henv'
+          refine ⟨?_, g2⟩
+          intro frag hfrag d hd
+          rcases List.mem_cons.mp hd with rfl | hd
+          · trivial
+          · exact g1 frag hfrag d hd
       | some name =>
         simp only [defOK] at hokd
         cases hr : rootOf S kind with
@@ -102,20 +132,30 @@ theorem processDefs_good (hS : schemaOK S = true) (henv : EnvOK env) :
             | ok res =>
               obtain ⟨gen, st1⟩ := res
               simp only [processDefs, hr, hg] at herr ⊢
-              obtain ⟨hmono, hinv1, hsem⟩ := genNamed_good hS henv hlk hokd.1 hokd.2 hg hinv
+              obtain ⟨hmono, hinv1, _, hsem⟩ := genNamed_good hS henv hlk hokd.1 hokd.2 hg hinv
               have hinv1' : EnumInv { st1 with decls := st1.decls ++ [typeDef (name ++ n_Data) gen] } := by
                 intro m hm
                 obtain ⟨cs, hcs⟩ := hinv1 m hm
                 exact ⟨cs, by simp [hcs]⟩
-              obtain ⟨h1, h2, h3⟩ := ih _ hokr herr hinv1'
-              refine ⟨fun d hd => h1 d (by simp [hmono d hd]), h2, ?_⟩
-              intro henv' frag hfrag d hd
-              rcases List.mem_cons.mp hd with rfl | hd
-              · have hin : typeDef (name ++ n_Data) gen ∈ env := henv' _ (h1 _ (by simp))
-                have hlook := henv _ hin
-                refine ⟨r, td, gen, isBareIdent gen, hr, hlk, hlook, ?_⟩
-                exact hsem (fun d hd => henv' d (h1 d (by simp [hd]))) frag hfrag
-              · exact h3 henv' frag hfrag d hd
+              obtain ⟨h1, h2, ht, h3⟩ := ih _ hokr herr hinv1'
+              refine ⟨fun d hd => h1 d (by simp [hmono d hd]), h2, ?_, ?_⟩
+              · intro d hd
+                rcases List.mem_cons.mp hd with rfl | hd
+                · exact List.mem_map.mpr ⟨typeDef (name ++ n_Data) gen, h1 _ (by simp), rfl⟩
+                · exact ht d hd
+              · intro henv'
+                obtain ⟨g1, g2⟩ := h3 henv'
+                obtain ⟨s1, s2⟩ := hsem (fun d hd => henv' d (h1 d (by simp [hd])))
+                constructor
+                · intro frag hfrag d hd
+                  rcases List.mem_cons.mp hd with rfl | hd
+                  · have hin : typeDef (name ++ n_Data) gen ∈ env := henv' _ (h1 _ (by simp))
+                    have hlook := henv _ hin
+                    exact ⟨r, td, gen, isBareIdent gen, hr, hlk, hlook, s1 frag hfrag⟩
+                  · exact g1 frag hfrag d hd
+                · intro hfn hec hst
+                  obtain ⟨t1, t2⟩ := s2 hfn hec
+                  exact g2 hfn hec (stOK_append (t2 hst) (by simpa [typeDef, declOK] using t1))
     | frag name cond sels =>
       simp only [defOK] at hokd
       cases hlk : S.lookup cond with
@@ -127,20 +167,30 @@ theorem processDefs_good (hS : schemaOK S = true) (henv : EnvOK env) :
         | ok res =>
           obtain ⟨gen, st1⟩ := res
           simp only [processDefs, hg] at herr ⊢
-          obtain ⟨hmono, hinv1, hsem⟩ := genNamed_good hS henv hlk hokd.1 hokd.2 hg hinv
+          obtain ⟨hmono, hinv1, _, hsem⟩ := genNamed_good hS henv hlk hokd.1 hokd.2 hg hinv
           have hinv1' : EnumInv { st1 with decls := st1.decls ++ [typeDef (name ++ n_Fragment) gen] } := by
             intro m hm
             obtain ⟨cs, hcs⟩ := hinv1 m hm
             exact ⟨cs, by simp [hcs]⟩
-          obtain ⟨h1, h2, h3⟩ := ih _ hokr herr hinv1'
-          refine ⟨fun d hd => h1 d (by simp [hmono d hd]), h2, ?_⟩
-          intro henv' frag hfrag d hd
-          rcases List.mem_cons.mp hd with rfl | hd
-          · have hin : typeDef (name ++ n_Fragment) gen ∈ env := henv' _ (h1 _ (by simp))
-            have hlook := henv _ hin
-            refine ⟨td, gen, isBareIdent gen, hlk, hlook, ?_⟩
-            exact hsem (fun d hd => henv' d (h1 d (by simp [hd]))) frag hfrag
-          · exact h3 henv' frag hfrag d hd
+          obtain ⟨h1, h2, ht, h3⟩ := ih _ hokr herr hinv1'
+          refine ⟨fun d hd => h1 d (by simp [hmono d hd]), h2, ?_, ?_⟩
+          · intro d hd
+            rcases List.mem_cons.mp hd with rfl | hd
+            · exact List.mem_map.mpr ⟨typeDef (name ++ n_Fragment) gen, h1 _ (by simp), rfl⟩
+            · exact ht d hd
+          · intro henv'
+            obtain ⟨g1, g2⟩ := h3 henv'
+            obtain ⟨s1, s2⟩ := hsem (fun d hd => henv' d (h1 d (by simp [hd])))
+            constructor
+            · intro frag hfrag d hd
+              rcases List.mem_cons.mp hd with rfl | hd
+              · have hin : typeDef (name ++ n_Fragment) gen ∈ env := henv' _ (h1 _ (by simp))
+                have hlook := henv _ hin
+                exact ⟨td, gen, isBareIdent gen, hlk, hlook, s1 frag hfrag⟩
+              · exact g1 frag hfrag d hd
+            · intro hfn hec hst
+              obtain ⟨t1, t2⟩ := s2 hfn hec
+              exact g2 hfn hec (stOK_append (t2 hst) (by simpa [typeDef, declOK] using t1))
 
 theorem processDoc_valid {d : Doc} {st : St} (h : (processDoc S d st).1 = []) : d.valid = true := by
   unfold processDoc at h
@@ -148,19 +198,35 @@ theorem processDoc_valid {d : Doc} {st : St} (h : (processDoc S d st).1 = []) : 
   | true => rfl
   | false => simp [hv] at h
 
+theorem typedefIn_mono {a b : List Decl} (h : ∀ d ∈ a, d ∈ b) {df : Def} (ht : TypedefIn a df) : TypedefIn b df := by
+  cases df with
+  | op k n ss =>
+    cases n with
+    | none => trivial
+    | some nm =>
+      obtain ⟨d, hd, hn⟩ := List.mem_map.mp ht
+      exact List.mem_map.mpr ⟨d, h d hd, hn⟩
+  | frag nm c ss =>
+    obtain ⟨d, hd, hn⟩ := List.mem_map.mp ht
+    exact List.mem_map.mpr ⟨d, h d hd, hn⟩
+
 theorem processDocs_good (hS : schemaOK S = true) (henv : EnvOK env) :
     ∀ (docs : List Doc) (st : St),
       (∀ d ∈ docs, ∀ df ∈ d.defs, defOK S (fragTypesOf d.defs) df = true) →
       (processDocs S docs st).1 = [] → EnumInv st →
       (∀ d ∈ st.decls, d ∈ (processDocs S docs st).2.decls) ∧ EnumInv (processDocs S docs st).2 ∧
+      (∀ doc ∈ docs, ∀ df ∈ doc.defs, TypedefIn (processDocs S docs st).2.decls df) ∧
       ((∀ d ∈ (processDocs S docs st).2.decls, d ∈ env) →
-        ∀ doc ∈ docs, ∀ frag, FragHyp S (fragTypesOf doc.defs) env frag → ∀ df ∈ doc.defs, DefGood S env frag df) := by
+        (∀ doc ∈ docs, ∀ frag, FragHyp S (fragTypesOf doc.defs) env frag → ∀ df ∈ doc.defs, DefGood S env frag df) ∧
+        ((∀ doc ∈ docs, FragNames (fragTypesOf doc.defs) (env.map Decl.name)) → enumConstsOK S = true →
+          StOK (env.map Decl.name) st → StOK (env.map Decl.name) (processDocs S docs st).2)) := by
   intro docs
   induction docs with
   | nil =>
     intro st _ _ hinv
     simp only [processDocs]
-    exact ⟨fun d hd => hd, hinv, fun _ doc hdoc => by cases hdoc⟩
+    exact ⟨fun d hd => hd, hinv, fun doc hdoc => (nomatch hdoc),
+      fun _ => ⟨fun doc hdoc => (nomatch hdoc), fun _ _ h => h⟩⟩
   | cons doc rest ih =>
     intro st hok herr hinv
     simp only [processDocs, List.append_eq_nil_iff] at herr ⊢
@@ -169,15 +235,39 @@ theorem processDocs_good (hS : schemaOK S = true) (henv : EnvOK env) :
     have hdoc : processDoc S doc st = processDefs S (fragTypesOf doc.defs) doc.defs st := by
       simp [processDoc, hvalid]
     rw [hdoc] at herr1 herr2 ⊢
-    obtain ⟨h1, h2, h3⟩ := processDefs_good hS henv doc.defs st (hok doc List.mem_cons_self) herr1 hinv
-    obtain ⟨g1, g2, g3⟩ := ih _ (fun d hd => hok d (List.mem_cons_of_mem _ hd)) herr2 h2
-    refine ⟨fun d hd => g1 d (h1 d hd), g2, ?_⟩
-    intro henv' doc' hdoc' frag hfrag df hdf
-    rcases List.mem_cons.mp hdoc' with rfl | hdoc'
-    · exact h3 (fun d hd => henv' d (g1 d hd)) frag hfrag df hdf
-    · exact g3 henv' doc' hdoc' frag hfrag df hdf
+    obtain ⟨h1, h2, ht, h3⟩ := processDefs_good hS henv doc.defs st (hok doc List.mem_cons_self) herr1 hinv
+    obtain ⟨g1, g2, gt, g3⟩ := ih _ (fun d hd => hok d (List.mem_cons_of_mem _ hd)) herr2 h2
+    refine ⟨fun d hd => g1 d (h1 d hd), g2, ?_, ?_⟩
+    · intro doc' hdoc' df hdf
+      rcases List.mem_cons.mp hdoc' with rfl | hdoc'
+      · exact typedefIn_mono g1 (ht df hdf)
+      · exact gt doc' hdoc' df hdf
+    · intro henv'
+      obtain ⟨a1, a2⟩ := h3 (fun d hd => henv' d (g1 d hd))
+      obtain ⟨b1, b2⟩ := g3 henv'
+      constructor
+      · intro doc' hdoc' frag hfrag df hdf
+        rcases List.mem_cons.mp hdoc' with rfl | hdoc'
+        · exact a1 frag hfrag df hdf
+        · exact b1 doc' hdoc' frag hfrag df hdf
+      · intro hfn hec hst
+        exact b2 (fun d hd => hfn d (List.mem_cons_of_mem _ hd)) hec (a2 (hfn doc List.mem_cons_self) hec hst)
 
 end
+
+theorem fragTypes_any {defs : List Def} {f : Name} (h : (fragTypesOf defs).any (fun p => p.1 == f) = true) :
+    ∃ c ss, Def.frag f c ss ∈ defs := by
+  obtain ⟨p, hp, hpf⟩ := List.any_eq_true.mp h
+  unfold fragTypesOf at hp
+  obtain ⟨df, hdf, hm⟩ := List.mem_filterMap.mp hp
+  cases df with
+  | op k n ss => simp at hm
+  | frag n c ss =>
+    simp at hm
+    subst hm
+    simp at hpf
+    subst hpf
+    exact ⟨c, ss, hdf⟩
 
 /-! ### Named fragments -/
 
